@@ -231,12 +231,14 @@ def run(ctx):
         filters.append(flat)
         wit0 = {'style': style, 'n_models': n_m, 'n_ap': n_ap, 'n_wav': n_w, 'sed_wav': truth.wav}
         try:
+            import copy as _copy
+            filters_before = [_copy.deepcopy(f_) for f_ in filters]      # the curves as the caller handed them over
             convolve_model_dir(pd, filters, memmap=bool(rng.random() < 0.5))
         except Exception as exc:
             ctx.violation('convolve-raised', 'convolve_model_dir raised: %r' % (exc,), wit0)
             ctx.rmdir(pd)
             continue
-        for flt in filters:
+        for flt in filters_before:
             ref_f, ref_e, R = convcheck.reference_convolution(truth, flt)
             got = convcheck.read_convolved_plain(os.path.join(pd, 'convolved', flt.name + '.fits'))
             rows = [truth.index(nm) for nm in got['names']] if sorted(got['names']) == sorted(truth.names) else None
